@@ -131,13 +131,24 @@ func genHist(rng *rand.Rand, i int) hist {
 	h.Initial = genPolicy(rng)
 	id := uint32(1)
 	n := 40 + rng.IntN(21)
+	last := map[int]tbl.PathSpec{}
 	for j := 0; j < n; j++ {
 		x := rng.IntN(100)
 		switch {
 		case x < 50:
+			pi := rng.IntN(len(pfxs))
+			if lp, ok := last[pi]; ok && rng.IntN(4) == 0 {
+				// the peer repeats its last announcement for the prefix unchanged (duplicate UPDATE, route refresh),
+				// once or twice
+				for k := 0; k <= rng.IntN(2); k++ {
+					h.Ops = append(h.Ops, op{K: "announce", Pfx: pi, Path: lp})
+				}
+				continue
+			}
 			p, _ := genPath(rng, h.S, id)
 			id++
-			h.Ops = append(h.Ops, op{K: "announce", Pfx: rng.IntN(len(pfxs)), Path: p})
+			last[pi] = p
+			h.Ops = append(h.Ops, op{K: "announce", Pfx: pi, Path: p})
 		case x < 60:
 			o := op{K: "withdraw", Pfx: rng.IntN(len(pfxs))}
 			if h.S.AddPathRX {
@@ -228,6 +239,7 @@ func run(h hist, st *stats, viol func(string, map[string]string, string)) int {
 				reasonAtAnnounce[o.Path.ID] = why
 			} else {
 				st.byReason["eligible"]++
+				delete(reasonAtAnnounce, o.Path.ID) // a repeat is judged afresh
 			}
 			in.AddPath(pfxs[o.Pfx], o.Path.Build())
 		case "asn-add":
@@ -306,7 +318,7 @@ func main() {
 		return
 	}
 	vf.Main("C06", "exploration", func(r *vf.Run) {
-		r.Rule("table half: PRNG histories of 40-60 operations on one Adj-RIB-In (iBGP/eBGP, add-path receive on/off, all 25 role pairs + roles off + peer without role, cycled) feeding a Loc-RIB and recording observers: announcements (about a third ineligible: AS loop via sequence or set incl. a second local ASN, own ORIGINATOR_ID, local cluster id inside CLUSTER_LIST, OTC present, empty eBGP AS_PATH), withdrawals, import policy replacement (accept-all / reject-all / reject-some / set LOCAL_PREF / prepend+MED), Loc-RIB unregister/register, late observer registration, other sessions of the VRF adding/withdrawing their local ASN / cluster id (reference counted); every hand-out and every Loc-RIB path is judged by the reference predicate. distinct_nontrivial = histories with an ineligible announcement, a policy replacement and a late registration" + sessionRule)
+		r.Rule("table half: PRNG histories of 40-60 operations on one Adj-RIB-In (iBGP/eBGP, add-path receive on/off, all 25 role pairs + roles off + peer without role, cycled) feeding a Loc-RIB and recording observers: announcements (a quarter of them unchanged repeats of the prefix's previous announcement; about a third ineligible: AS loop via sequence or set incl. a second local ASN, own ORIGINATOR_ID, local cluster id inside CLUSTER_LIST, OTC present, empty eBGP AS_PATH), withdrawals, import policy replacement (accept-all / reject-all / reject-some / set LOCAL_PREF / prepend+MED), Loc-RIB unregister/register, late observer registration, other sessions of the VRF adding/withdrawing their local ASN / cluster id (reference counted); every hand-out and every Loc-RIB path is judged by the reference predicate. distinct_nontrivial = histories with an ineligible announcement, a policy replacement and a late registration" + sessionRule)
 		sessionAssumptions(r)
 		r.Assume("router id != 0", "the predicate judges the path as announced (before import policy), against the ASNs and cluster ids that were local at that moment")
 		mk := func(h hist) func(string, map[string]string, string) {
